@@ -24,7 +24,7 @@ let external_decompose_full e =
   if is_skipped e then none else
   match M.ExternalFull.external_decompose_full M.ExternalFull.full_fuel (Ops_tasks.ext_task e) with
   | M.ExternalFull.XOk (ws, ps) ->
-    L [ A "ok"; L (A "warnings" :: List.map (fun w -> S (Ops_tasks.ext_warning_name w)) ws); Ops_tasks.of_problems ps ]
+    L [ A "ok"; Ops_tasks.ext_warnings_sexp ws; Ops_tasks.of_problems ps ]
   | M.ExternalFull.XErr err -> Ops_tasks.ext_error_sexp err
   | M.ExternalFull.XPanic -> L [ A "panic" ]
   | M.ExternalFull.XNonterminating -> L [ A "nonterminating" ]
